@@ -556,10 +556,18 @@ class FileSession(Session):
 
     def _exists(self):
         path = self._get_file_path()
+        # Only the id whose file name is already in normal form names a
+        # session: another spelling that merely normalises to the file of
+        # a live session ('<id>/', 'x/../session-<id>') is an alias made up
+        # by the client, never an id this server issued.
+        canonical = os.path.join(
+            os.path.abspath(self.storage_path),
+            self.SESSION_PREFIX + self.id)
         # A name ending in LOCK_SUFFIX is the lock file of some session,
         # never session data (clean_up and __len__ skip it the same way).
         return (
-            not path.endswith(self.LOCK_SUFFIX)
+            path == canonical
+            and not path.endswith(self.LOCK_SUFFIX)
             and os.path.exists(path)
         )
 
